@@ -208,3 +208,176 @@ theorem kick_effect (cfg : Cfg) (c : Nat) (channel : Str) (kickUsers : List Str)
   · intro n hn
     rw [f2 n]
     cases Map.lookup n x.w.users <;> simp [hn]
+
+/-- what the issuer is told: for each listed nick in order, 441 for a non-member, 972 for a
+    member he may not kick, nothing for a kicked one. -/
+theorem kick_replies (cfg : Cfg) (c : Nat) (channel : Str) (kickUsers : List Str) (comment : Option Str)
+    (x : Ctx) (nick : Str) (ch : Channel) (chum : ChanUserModes)
+    (hnick : (x.conn c).nick = some nick) (hch : Map.lookup channel x.w.channels = some ch)
+    (hm : Map.lookup nick ch.users = some chum) (hH : chum.isHalfOperator = true)
+    (hmem : ∀ n, Map.contains n ch.users = true → Map.contains n x.w.users = true) :
+    (processKick cfg c channel kickUsers comment x).direct = x.direct ++
+      (kickUsers.filterMap (fun ku =>
+        match Map.lookup ku ch.users with
+        | none => some (ErrUserNotInChannel441 (x.conn c).clientName ku channel)
+        | some m => if Spec.kickable chum m then none else some (ErrCannotDoCommand972 (x.conn c).clientName))).map
+        (srvLine cfg) := by
+  obtain ⟨-, hd, -⟩ := processKick_ok cfg c channel kickUsers comment x nick ch chum hnick hch hm hH hmem
+  rw [show (processKick cfg c channel kickUsers comment x).direct = _ from hd, kickSelect_snd]
+  congr 1
+  have key : ∀ m : ChanUserModes, kickOk m chum.isOnlyHalfOperator = Spec.kickable chum m := by
+    intro m
+    obtain ⟨aq, aa, av, ao, ah⟩ := chum
+    obtain ⟨mq, ma, mv, mo, mh⟩ := m
+    simp only [ChanUserModes.isHalfOperator] at hH
+    simp only [kickOk, Spec.kickable, ChanUserModes.isProtected, ChanUserModes.isHalfOperator,
+      ChanUserModes.isOnlyHalfOperator]
+    revert hH
+    cases aq <;> cases aa <;> cases ao <;> cases ah <;> cases mq <;> cases ma <;> cases mo <;> cases mh <;> decide
+  have : (kickReply (x.conn c).clientName channel ch chum.isOnlyHalfOperator) = (fun ku =>
+        match Map.lookup ku ch.users with
+        | none => some (ErrUserNotInChannel441 (x.conn c).clientName ku channel)
+        | some m => if Spec.kickable chum m then none else some (ErrCannotDoCommand972 (x.conn c).clientName)) := by
+    funext ku
+    unfold kickReply
+    cases Map.lookup ku ch.users <;> simp [key]
+  rw [this]
+  apply List.map_congr_left
+  intro e _
+  simp [srvLine, str]
+
+/-! ## 4. TOPIC -/
+
+/-- `TOPIC #chan :text`.  With the issuer's nick `nick`:
+    * accepted iff the channel exists, `nick` is a member, and the channel is not `+t` or `nick`
+      is half-operator or above.  Then the stored topic becomes `text` set by `nick` (cleared if
+      `text` is empty), nothing else of the channel or the world changes, the TOPIC line is queued
+      once to every member (in member order) and nothing is written back;
+    * otherwise exactly one of 403 / 442 / 482 is written and nothing changes. -/
+theorem topic_spec (cfg : Cfg) (c : Nat) (channel : Str) (t : Str) (msg : Message) (x : Ctx)
+    (nick : Str) (hnick : (x.conn c).nick = some nick) :
+    let x' := processTopic cfg c channel (some t) msg x
+    let client := (x.conn c).clientName
+    (∀ ch chum, Map.lookup channel x.w.channels = some ch → Map.lookup nick ch.users = some chum →
+      (ch.modes.protectedTopic = false ∨ chum.isHalfOperator = true) →
+      (∀ n, Map.contains n ch.users = true → Map.contains n x.w.users = true) →
+      x'.w = { x.w with channels := (Map.insert channel
+                { ch with topic := if t = [] then none else some { topic := t, nick := nick } } x.w.channels) } ∧
+      x'.direct = x.direct ∧
+      x'.queued = x.queued ++ (Map.keys ch.users).map (fun n => (ownerOf x.w n, msg.render (x.conn c).source))) ∧
+    (Map.lookup channel x.w.channels = none → OnlyReplied cfg x x' (ErrNoSuchChannel403 client channel)) ∧
+    (∀ ch, Map.lookup channel x.w.channels = some ch → Map.lookup nick ch.users = none →
+      OnlyReplied cfg x x' (ErrNotOnChannel442 client channel)) ∧
+    (∀ ch chum, Map.lookup channel x.w.channels = some ch → Map.lookup nick ch.users = some chum →
+      ch.modes.protectedTopic = true → chum.isHalfOperator = false →
+      OnlyReplied cfg x x' (ErrChanOpPrivsNeeded482 client channel)) := by
+  refine ⟨fun ch chum h1 h2 h3 h4 => ?_, fun h => ?_, fun ch h1 h2 => ?_, fun ch chum h1 h2 h3 h4 => ?_⟩
+  · have hcond : (!ch.modes.protectedTopic || chum.isHalfOperator) = true := by
+      rcases h3 with h3 | h3 <;> simp [h3]
+    have : processTopic cfg c channel (some t) msg x =
+        (x.modifyW (fun w => { w with channels := (Map.insert channel
+          { ch with topic := if t = [] then none else some { topic := t, nick := nick } } w.channels) })).sendAll
+          (Map.keys ch.users) (msg.render (x.conn c).source) := by
+      unfold processTopic
+      simp only [hnick, h1, h2, hcond, ↓reduceIte]
+      cases t <;> rfl
+    simp only [this]
+    rw [Ctx.sendAll_known]
+    · simp [ownerOf]
+    · intro n hn
+      exact h4 n ((Map.contains_iff_mem_keys _ _).mpr hn)
+  · simp [processTopic, hnick, h, OnlyReplied, srvLine, str]
+  · simp [processTopic, hnick, h1, h2, OnlyReplied, srvLine, str]
+  · simp [processTopic, hnick, h1, h2, h3, h4, OnlyReplied, srvLine, str]
+
+/-- the read form `TOPIC #chan`: a member is shown the stored topic (332 + 333) or 331, a
+    non-member gets 442, an unknown channel 403; nothing changes. -/
+theorem topic_read_spec (cfg : Cfg) (c : Nat) (channel : Str) (msg : Message) (x : Ctx)
+    (nick : Str) (hnick : (x.conn c).nick = some nick) :
+    let x' := processTopic cfg c channel none msg x
+    let client := (x.conn c).clientName
+    (∀ ch chum tp, Map.lookup channel x.w.channels = some ch → Map.lookup nick ch.users = some chum →
+      ch.topic = some tp →
+      x'.w = x.w ∧ x'.queued = x.queued ∧
+      x'.direct = x.direct ++ [srvLine cfg (RplTopic332 client channel tp.topic),
+                               srvLine cfg (RplTopicWhoTime333 client channel tp.nick 0)]) ∧
+    (∀ ch chum, Map.lookup channel x.w.channels = some ch → Map.lookup nick ch.users = some chum →
+      ch.topic = none → OnlyReplied cfg x x' (RplNoTopic331 client channel)) ∧
+    (∀ ch, Map.lookup channel x.w.channels = some ch → Map.lookup nick ch.users = none →
+      OnlyReplied cfg x x' (ErrNotOnChannel442 client channel)) ∧
+    (Map.lookup channel x.w.channels = none → OnlyReplied cfg x x' (ErrNoSuchChannel403 client channel)) := by
+  refine ⟨fun ch chum tp h1 h2 h3 => ?_, fun ch chum h1 h2 h3 => ?_, fun ch h1 h2 => ?_, fun h => ?_⟩
+  · simp [processTopic, hnick, h1, h2, h3, Map.contains, srvLine, str]
+  · simp [processTopic, hnick, h1, h2, h3, Map.contains, OnlyReplied, srvLine, str]
+  · simp [processTopic, hnick, h1, h2, Map.contains, OnlyReplied, srvLine, str]
+  · simp [processTopic, hnick, h, OnlyReplied, srvLine, str]
+
+/-! ## 5. INVITE -/
+
+/-- `INVITE nickname #chan` by `nick`:
+    * honoured iff the channel exists, `nick` is a member, the channel is not invite-only or
+      `nick` has the operator flag, `nickname` is not on the channel and is a registered user.  Then
+      `channel` is added to the invitee's `invitedTo` and nothing else in the world changes; one
+      341 is written to the issuer; exactly one line, the INVITE itself, is queued, to the invitee;
+    * otherwise exactly one of 403 / 442 / 482 / 443 / 401 (in this precedence) is written and
+      nothing changes. -/
+theorem invite_spec (cfg : Cfg) (c : Nat) (nickname channel : Str) (msg : Message) (x : Ctx)
+    (nick : Str) (hnick : (x.conn c).nick = some nick) :
+    let x' := processInvite cfg c nickname channel msg x
+    let client := (x.conn c).clientName
+    (∀ ch chum u, Map.lookup channel x.w.channels = some ch → Map.lookup nick ch.users = some chum →
+      (ch.modes.inviteOnly = false ∨ chum.operator = true) → Map.lookup nickname ch.users = none →
+      Map.lookup nickname x.w.users = some u →
+      (Map.lookup nickname x'.w.users = some { u with invitedTo := KSet.insert channel u.invitedTo } ∧
+       KSet.mem channel (KSet.insert channel u.invitedTo) = true ∧
+       (∀ n, n ≠ nickname → Map.lookup n x'.w.users = Map.lookup n x.w.users) ∧
+       Map.keys x'.w.users = Map.keys x.w.users ∧
+       x'.w = { x.w with users := x'.w.users }) ∧
+      x'.direct = x.direct ++ [srvLine cfg (RplInviting341 client nickname channel)] ∧
+      x'.queued = x.queued ++ [(u.owner, msg.render (x.conn c).source)]) ∧
+    (Map.lookup channel x.w.channels = none → OnlyReplied cfg x x' (ErrNoSuchChannel403 client channel)) ∧
+    (∀ ch, Map.lookup channel x.w.channels = some ch → Map.lookup nick ch.users = none →
+      OnlyReplied cfg x x' (ErrNotOnChannel442 client channel)) ∧
+    (∀ ch chum, Map.lookup channel x.w.channels = some ch → Map.lookup nick ch.users = some chum →
+      ch.modes.inviteOnly = true → chum.operator = false →
+      OnlyReplied cfg x x' (ErrChanOpPrivsNeeded482 client channel)) ∧
+    (∀ ch chum m, Map.lookup channel x.w.channels = some ch → Map.lookup nick ch.users = some chum →
+      (ch.modes.inviteOnly = false ∨ chum.operator = true) → Map.lookup nickname ch.users = some m →
+      OnlyReplied cfg x x' (ErrUserOnChannel443 client nickname channel)) ∧
+    (∀ ch chum, Map.lookup channel x.w.channels = some ch → Map.lookup nick ch.users = some chum →
+      (ch.modes.inviteOnly = false ∨ chum.operator = true) → Map.lookup nickname ch.users = none →
+      Map.lookup nickname x.w.users = none →
+      OnlyReplied cfg x x' (ErrNoSuchNick401 client nickname)) := by
+  refine ⟨fun ch chum u h1 h2 h3 h4 h5 => ?_, fun h => ?_, fun ch h1 h2 => ?_,
+    fun ch chum h1 h2 h3 h4 => ?_, fun ch chum m h1 h2 h3 h4 => ?_, fun ch chum h1 h2 h3 h4 h5 => ?_⟩
+  · have hcond : (ch.modes.inviteOnly && !chum.operator) = false := by
+      rcases h3 with h3 | h3 <;> simp [h3]
+    have hx : processInvite cfg c nickname channel msg x =
+        ((x.modifyW (fun w => { w with users := Map.modify nickname (fun u =>
+            { u with invitedTo := KSet.insert channel u.invitedTo }) w.users })).reply cfg
+          (RplInviting341 (x.conn c).clientName nickname channel)).send nickname (msg.render (x.conn c).source) := by
+      unfold processInvite
+      simp [hnick, h1, h2, hcond, Map.contains, h4, h5]
+    simp only [hx]
+    have hl : Map.lookup nickname (Map.modify nickname (fun u =>
+        { u with invitedTo := KSet.insert channel u.invitedTo }) x.w.users) =
+        some { u with invitedTo := KSet.insert channel u.invitedTo } := by
+      rw [Map.lookup_modify]; simp [h5]
+    rw [Ctx.send_w_of_lookup (u := { u with invitedTo := KSet.insert channel u.invitedTo })]
+    · refine ⟨⟨hl, ?_, ?_, ?_, rfl⟩, ?_, rfl⟩
+      · rw [KSet.mem_insert]; simp
+      · intro n hn
+        simp only [Ctx.reply_w, Ctx.modifyW_w]
+        rw [Map.lookup_modify]; simp [Ne.symm hn]
+      · simp only [Ctx.reply_w, Ctx.modifyW_w]; exact Map.keys_modify _ _ _
+      · simp [srvLine, str]
+    · simpa using hl
+  · simp [processInvite, hnick, h, OnlyReplied, srvLine, str]
+  · simp [processInvite, hnick, h1, h2, OnlyReplied, srvLine, str]
+  · simp [processInvite, hnick, h1, h2, h3, h4, OnlyReplied, srvLine, str]
+  · have hcond : (ch.modes.inviteOnly && !chum.operator) = false := by
+      rcases h3 with h3 | h3 <;> simp [h3]
+    simp [processInvite, hnick, h1, h2, hcond, Map.contains, h4, OnlyReplied, srvLine, str]
+  · have hcond : (ch.modes.inviteOnly && !chum.operator) = false := by
+      rcases h3 with h3 | h3 <;> simp [h3]
+    simp [processInvite, hnick, h1, h2, hcond, Map.contains, h4, h5, OnlyReplied, srvLine, str]
